@@ -388,10 +388,10 @@ impl Driver for C05 {
                                 }
                             } {
                                 out.inconclusive("optimal value differs only within the 1e-6 tolerance band");
-                            } else if solver == "clarabel" && got.as_ref().is_some_and(|g| (g - value).abs() <= pow10_neg(4) * qmax(&one(), &value.abs())) {
+                            } else if (solver == "clarabel" || solver == "tableau") && got.as_ref().is_some_and(|g| (g - value).abs() <= pow10_neg(4) * qmax(&one(), &value.abs())) {
                                 out.violation(
-                                    "clarabel:optimal-value-off-by-1e-6..1e-4(relative)",
-                                    &format!("clarabel reports optimum {} but the certified optimum is {}", sol.value, show(value)),
+                                    &format!("{solver}:optimal-value-off-by-1e-6..1e-4(relative)"),
+                                    &format!("{solver} reports optimum {} but the certified optimum is {}", sol.value, show(value)),
                                     detail(sol_json(sol)),
                                 );
                             } else {
